@@ -63,6 +63,7 @@ type callPattern struct {
 	recvFunc string // lowered function returning the receiver value
 	iface    *types.Interface
 	dynamic  bool // call of a function value (field or variable of func type)
+	returns      bool // `returns()`: pseudo-event recorded at every return statement of the function under contract
 	loopContinue bool // `loop_continues()`: pseudo-event recorded at every back edge of the function under contract
 	passing  bool // `call passing T($x)`: any call (static, interface or dynamic) with an argument of static type T
 	elemOf   bool // each(X)(args): call of a function value that is an element of the slice X
@@ -239,6 +240,12 @@ func parsePattern(s string) (*callPattern, error) {
 	if t := strings.TrimSpace(s); t == "loop_continues()" {
 		// pseudo-call: the enclosing loop of the function under contract proceeds to its next iteration
 		p.loopContinue = true
+		p.recvSrc = "_"
+		return p, nil
+	}
+	if t := strings.TrimSpace(s); t == "returns()" {
+		// pseudo-call: the function under contract returns (conditions see its locals at that time)
+		p.returns = true
 		p.recvSrc = "_"
 		return p, nil
 	}
@@ -846,8 +853,8 @@ func (e *Engine) matchPattern(sp *ssa.Package, p *callPattern, ev Event, prov0 f
 			return v, true
 		}
 		if e.topFrame != nil && ev.St != nil {
-			if c, ok := e.topFrame.named[name]; ok {
-				if v, ok := ev.St.cells[c]; ok && v != nil {
+			if _, ok := e.topFrame.named[name]; ok {
+				if v, ok := localAt(e.topFrame, name, ev.St); ok {
 					return v, true
 				}
 			}
@@ -860,7 +867,13 @@ func (e *Engine) matchPattern(sp *ssa.Package, p *callPattern, ev Event, prov0 f
 		}
 		return nil, false
 	}
-	if ev.Callee == "<loop-continues>" {
+	if p.returns {
+		if ev.Callee == "<returns>" {
+			return mi, true
+		}
+		return nil, false
+	}
+	if ev.Callee == "<loop-continues>" || ev.Callee == "<returns>" {
 		return nil, false
 	}
 	if p.passing {
@@ -1109,7 +1122,7 @@ func (e *Engine) effectObligations(sp *ssa.Package, fc *FuncContract, fn *ssa.Fu
 						if isResult {
 							continue // `err`, `result`: the function's results, not a local that happens to share the name
 						}
-						if v, ok := curEv.St.cells[c]; ok && v != nil {
+						if v, ok := localAt(e.topFrame, name, curEv.St); ok {
 							withLocals[name] = v
 						} else {
 							withLocals[name] = e.zero(curEv.St, c.Typ) // not yet declared at the time of the event
@@ -1150,7 +1163,7 @@ func (e *Engine) effectObligations(sp *ssa.Package, fc *FuncContract, fn *ssa.Fu
 					// a local of the function under contract: its value at the time of the event
 					if e.topFrame != nil && e.topFrame.fn == fn && ev.St != nil {
 						if c, ok := e.topFrame.named[name]; ok {
-							if v, ok := ev.St.cells[c]; ok && v != nil {
+							if v, ok := localAt(e.topFrame, name, ev.St); ok {
 								return v, true
 							}
 							// declared later than the event: the variable does not exist yet; its zero value stands in
@@ -1183,6 +1196,33 @@ func (e *Engine) effectObligations(sp *ssa.Package, fc *FuncContract, fn *ssa.Fu
 						return
 					}
 					for _, fv := range e.events {
+						if ec.Forbid && fv.Seq != ev.Seq {
+							// A summarised loop shows one arbitrary iteration. An event that stands earlier in the body
+							// of a loop both calls sit in happens AFTER the obliged call as well - in the next iteration -
+							// when the loop goes on after the obliged call; and one that stands later in the body has
+							// happened BEFORE it when an earlier iteration went on after that event. What the next
+							// (previous) iteration's values are is unknown: the match is assumed possible.
+							if l := commonLoop(ev, fv); l != 0 && (dirs[k] == "after") == (fv.Seq < ev.Seq) {
+								if _, ok := e.matchPattern(sp, pats[k], fv, prov); ok {
+									later := ev.Seq
+									if fv.Seq > later {
+										later = fv.Seq
+									}
+									for _, cv := range e.events {
+										if cv.Callee == "<loop-continues>" && cv.LoopID == l && cv.Seq > later {
+											if dirs[k] == "after" && len(ev.Loops) > 0 && innermostLoop(ev, e.events) == l {
+												dis = append(dis, and(append(append([]string{}, guards...), cv.Guard)...))
+											} else {
+												// the obliged call sits in a loop nested in this one: the summary of the
+												// inner loop does not relate its iterations to the way the outer loop
+												// goes on, so going on is assumed possible
+												dis = append(dis, and(guards...))
+											}
+										}
+									}
+								}
+							}
+						}
 						if dirs[k] == "before" && fv.Seq >= ev.Seq || dirs[k] == "after" && fv.Seq <= ev.Seq {
 							continue
 						}
@@ -1271,4 +1311,42 @@ func (e *Engine) thaw(v Val) Val {
 		return PtrV{Nil: sp.Nil, Cell: c, Elem: elem, Name: name}
 	}
 	return v
+}
+
+// patterns lists the call patterns of a clause.
+func (ec *EffectClause) patterns() []*callPattern {
+	ps := []*callPattern{ec.Every, ec.Needs}
+	return append(ps, ec.MoreNeeds...)
+}
+
+// commonLoop is the identity of the innermost loop two events both sit in (0: none).
+func commonLoop(a, b Event) int {
+	for i := len(a.Loops) - 1; i >= 0; i-- {
+		for _, l := range b.Loops {
+			if l == a.Loops[i] {
+				return l
+			}
+		}
+	}
+	return 0
+}
+
+// innermostLoop is the identity of the innermost loop an event sits in (Loops lists them outermost first).
+func innermostLoop(ev Event, all []Event) int {
+	if len(ev.Loops) == 0 {
+		return 0
+	}
+	return ev.Loops[len(ev.Loops)-1]
+}
+
+// localAt is the value of the local variable `name` of the function under contract in the state st: of the variables
+// declared under that name (shadowing, one per loop) the one declared last before the state was taken.
+func localAt(f *frame, name string, st *State) (Val, bool) {
+	cs := f.namedAll[name]
+	for i := len(cs) - 1; i >= 0; i-- {
+		if v, ok := st.cells[cs[i]]; ok && v != nil {
+			return v, true
+		}
+	}
+	return nil, false
 }
